@@ -180,6 +180,7 @@ func runC12(c *fw.Case) {
 	}
 	c.Count("exports", int64(exports))
 	c.Count("txs", int64(r.txCount))
+	c.Count("real_gov_proposals_submitted", int64(r.proposals))
 	c.Nontrivial(nontrivial)
 	c.Sample(map[string]interface{}{"minter": r.mc.Describe(), "blocks": nBlocks, "exports": exports, "txs": r.txCount})
 }
